@@ -316,6 +316,20 @@ theorem loop_pass_rule (env : Env) (a : Async) (n L Lr F : Nat) (W : Stmt) (extr
     | fired hlt _ _ _ _ _ _ => omega
   exact exec_mono env this (by simp) _ (Nat.le_add_right _ _)
 
+/-- the stream ends: result messages with counters `1..j`, `j ≤ n`, then exactly one end marker -/
+def StreamEnds (n : Nat) (r : St × Out) : Prop :=
+  r.2 ≠ .fuel ∧ ∃ j, j ≤ n ∧ ∃ e, r.1.results = itemsFrom 0 j ++ [.endMarker e]
+
+theorem StreamEnds.shape {n : Nat} {r : St × Out} (h : StreamEnds n r) : StreamShape n r :=
+  let ⟨h1, j, hj, e, he⟩ := h
+  ⟨h1, j, hj, Or.inr ⟨e, he⟩⟩
+
+theorem streamEnds_mono (env : Env) (prog : List Stmt) (st : St) (n F : Nat)
+    (h : StreamEnds n (execBlock env F st prog)) : ∀ G, F ≤ G → StreamEnds n (execBlock env G st prog) := by
+  intro G hG
+  rw [execBlock_mono env rfl h.1 G hG]
+  exact h
+
 /-- the state in which the loop is left (opaque in the rewriting rules: they must not mention `exec` on the right) -/
 def loopEx (env : Env) (F : Nat) (st : St) (W : Stmt) : St := (exec env F st W).1
 
